@@ -14,6 +14,11 @@ CHECKS = {
          "Every log up to length 3 (quick) / 4 (thorough) over a 16-entry alphabet is applied under ALL 2^(n-1) batchings, and (shorter logs) with Sync, close+reopen and snapshot save/recover (4 format pairs, fresh and stale receiver) interposed at every cut point; results, content, hash, applied and leader index must equal the one-entry-per-call run and the model.",
          "Trusted: refkv; GetHash as a content digest. Logs beyond the depth and other alphabets are not covered.",
          "DESIGN.md section 4, C03"),
+ "C04": ("fault_enumeration",
+         "crash-point enumeration: every mutating FS operation boundary of every bounded history on a strict in-memory FS",
+         "Every history of length <= 2 (quick) / <= 3 (thorough) over 12 steps (8 apply calls incl. multi-entry call and transaction, Sync, close+reopen, snapshot install in both formats), from a never-opened table; for every FS operation boundary the history is re-run with durability frozen there, unsynced state dropped, the table reopened and compared with the model prefix at the reported index, then the rest of the log re-applied; thorough adds a second crash at every operation of recovery.",
+         "Trusted: pebble strict MemFS implements the stated fault model; refkv. No torn writes within a synced file; real disks not modelled.",
+         "DESIGN.md section 4, C04"),
  "C09": ("exploration",
          "bounded exhaustive enumeration of contents x bounds x limits x forms (and value-size orders) vs reference model",
          "All 64 subsets of 6 keys x 100 bound pairs x every limit 0..n+1 x 3 forms, unary and streamed; every content of up to 3 (quick) / 5 (thorough) pairs with sizes from {1KiB,1MiB,2MiB-1KiB,2MiB} for size cuts, per-message size/flags/counts, and a write between any two pulls of a stream.",
